@@ -732,7 +732,9 @@ def eval_history(rp):
     H = int(rng.integers(0, 6)) if not rp.get('hist_len') else rp['hist_len']
     ctor = {}
     ctor_dim = None
-    if caching and rng.random() < 0.3:
+    if rp.get('force_dims'):
+        H = len(rp['force_dims']) - 1
+    if caching and rng.random() < 0.3 and not rp.get('force_dims'):
         ctor_dim = int(rng.integers(2, dmax + 1))
         ctor['dimension'] = ctor_dim
     if cls in ('CWMMTrainer', 'ComplexWatsonTrainer') and rng.random() < 0.5:
@@ -747,6 +749,8 @@ def eval_history(rp):
             c = copy.deepcopy(same)                       # the probe repeats an earlier fit exactly
         else:
             D = D0 if rng.random() < 0.7 else int(rng.integers(2, dmax + 1))
+            if rp.get('force_dims'):
+                D = rp['force_dims'][i]
             c = _history_call(rng, cls, D)
         if same is None or rng.random() < 0.5:
             same = c
@@ -820,8 +824,10 @@ def eval_history(rp):
     return None, None, coq, label, H >= 1, dg
 
 
-def _case_history(cls, argseed):
+def _case_history(cls, argseed, force_dims=None):
     rp = {'fn': 'history', 'cls': cls, 'argseed': int(argseed)}
+    if force_dims:
+        rp['force_dims'] = list(force_dims)
     fail, key, coq, label, nt, dg = eval_history(rp)
     return Case('history ' + label, coq=coq, pred_fail=fail, key=key, nontrivial=nt, digest_=dg, sample={'name': 'history ' + label},
                 replay=rp, kind='history/' + cls)
@@ -1060,6 +1066,11 @@ def cases(rng, tier):
             if cls in ('CBMMTrainer',) and rep >= (2 if q else 12):
                 continue
             out.append(case_history(cls, rng.integers(0, 2 ** 31)))
+    # a trainer built WITHOUT a dimension meets recordings with another number of channels (2 -> 3 -> 2, 3 -> 2 -> 2):
+    # cached tables must never be reused for another dimension (explicit refusal or fresh result, never a stale one)
+    for cls in CACHING:
+        for dims in ([2, 3, 2], [3, 2, 2]) if q else ([2, 3, 2], [3, 2, 2], [2, 3, 3], [3, 2, 3, 2]):
+            out.append(case_history(cls, rng.integers(0, 2 ** 31), dims))
     for n in ([2, 3, 3, 4, 4, 5, 5, 6, 6, 6, 24, 30, 36] if q else [2, 3, 4, 5, 6, 6] * 5 + [7, 8, 9, 10, 11, 12, 13, 14, 15, 16, 17, 18, 19, 20, 20, 24, 30, 36, 40, 48]):
         out.append(case_split(n, rng.integers(0, 2 ** 31)))
     for rep in range(2 if q else 12):
